@@ -24,7 +24,7 @@ RECURSIVE Closure(_)
 Closure(S) == LET S2 == S \cup UNION {deps[m] : m \in S} IN IF S2 = S THEN S ELSE Closure(S2)
 Wanted == IF mgmt THEN Closure({m \in Mods : enabled[m]}) ELSE Mods
 Online == {m \in Mods : ph[m] = "online"}
-Prepped(m) == ph[m] \in {"offline", "starting", "online", "stopping"}
+Prepped(m) == ph[m] \in {"offline", "starting", "online", "stopping", "expired"}
 
 AbsInit == /\ n = 0 /\ deps = <<>> /\ mgmt = FALSE /\ enabled = <<>> /\ ph = <<>>
            /\ startsOk = <<>> /\ stopCalls = <<>> /\ inCall = "none" /\ anyStart = FALSE /\ dirty = FALSE /\ panicked = FALSE
@@ -78,13 +78,19 @@ Begin(m, c) ==
     /\ cbCall' = [cbCall EXCEPT ![m] = callNo]
     /\ UNCHANGED <<n, deps, mgmt, enabled, startsOk, inCall, dirty, panicked, callNo>>
 
+\* the start routine of m has been running for longer than the start timeout: the manager gives up on it; this run of
+\* the routine is not a successful one, whatever it returns later
+Expire(m, c) ==
+    /\ c = "start" /\ ph[m] = "starting" /\ ph' = [ph EXCEPT ![m] = "expired"]
+    /\ UNCHANGED <<n, deps, mgmt, enabled, startsOk, stopCalls, inCall, anyStart, dirty, panicked, callNo, cbCall>>
+
 End(m, c, ok, pan) ==
     /\ CASE c = "prep"  -> /\ ph[m] = "prepping"
                            /\ ph' = [ph EXCEPT ![m] = IF ok THEN "offline" ELSE "prepfailed"]
                            /\ UNCHANGED startsOk
-         [] c = "start" -> /\ ph[m] = "starting"
-                           /\ ph' = [ph EXCEPT ![m] = IF ok THEN "online" ELSE "offline"]
-                           /\ startsOk' = [startsOk EXCEPT ![m] = IF ok THEN @ + 1 ELSE @]
+         [] c = "start" -> /\ ph[m] \in {"starting", "expired"}
+                           /\ ph' = [ph EXCEPT ![m] = IF ok /\ ph[m] = "starting" THEN "online" ELSE "offline"]
+                           /\ startsOk' = [startsOk EXCEPT ![m] = IF ok /\ ph[m] = "starting" THEN @ + 1 ELSE @]
          [] c = "stop"  -> /\ ph[m] = "stopping"
                            /\ ph' = [ph EXCEPT ![m] = "offline"]
                            /\ UNCHANGED startsOk
